@@ -4,6 +4,9 @@ use std::{
     thread::{self, Thread},
 };
 
+#[cfg(divan_verif)]
+use crate::__verif::shim as std;
+
 /// A reusable barrier for the threads of a benchmark.
 ///
 /// Unlike [`std::sync::Barrier`], it can be broken: if a participating thread
